@@ -259,7 +259,7 @@ func checkAmmo(c AmmoCase, o *vf.Obs) error {
 		if probe, ok := canary(c.Data); ok {
 			pc := c
 			pc.Data = probe
-			if err := judge(note, len(probe), func() error { return ammoBody(pc, nil) }); err != nil {
+			if err := judge(note, len(probe), smallCeiling, func() error { return ammoBody(pc, nil) }); err != nil {
 				if v, ok := err.(*violation); ok {
 					v.msg = "with every number of >= 10 digits replaced by 1073741824: " + v.msg
 				}
@@ -267,7 +267,7 @@ func checkAmmo(c AmmoCase, o *vf.Obs) error {
 			}
 		}
 	}
-	return judge(note, len(c.Data), func() error { return ammoBody(c, o) })
+	return judge(note, len(c.Data), smallCeiling, func() error { return ammoBody(c, o) })
 }
 
 var extraOK = map[string]bool{"Content-Length": true}
